@@ -3,3 +3,5 @@ import PcVerif.Util.Proto
 import PcVerif.Ops
 import PcVerif.Props.C20
 import PcVerif.Props.C19
+import PcVerif.Props.C18
+import PcVerif.Props.C13
